@@ -856,8 +856,12 @@ fn clone_float<R: Round, const B: Word>(_op: &str, a: &[&str]) -> Vec<String> {
         let c = src.clone();
         let s0 = src.show();
         let mut m = c.clone();
-        m <<= 5;
-        m += FBig::<R, B>::ONE;
+        if !m.repr().is_infinite() {
+            m <<= 5;
+            m += FBig::<R, B>::ONE;
+        } else {
+            m = -m;
+        }
         format!("{},{}", c.show(), (src.show() == s0) as u8)
     }));
     out.push(form("clone_from", || {
@@ -866,8 +870,12 @@ fn clone_float<R: Round, const B: Word>(_op: &str, a: &[&str]) -> Vec<String> {
         dst.clone_from(&src);
         let r = dst.show();
         let s0 = src.show();
-        dst <<= 3;
-        dst *= FBig::<R, B>::from(7u8);
+        if !dst.repr().is_infinite() {
+            dst <<= 3;
+            dst *= FBig::<R, B>::from(7u8);
+        } else {
+            dst = -dst;
+        }
         format!("{},{}", r, (src.show() == s0) as u8)
     }));
     out
